@@ -594,7 +594,10 @@ impl AssemblyCode {
                                 }
                             }
                             accumulator = Some(inst.dasm_operand.clone());
-                            flags = FlagsState::A;
+                            if !remove_second {
+                                // (a load that is removed does not set the flags)
+                                flags = FlagsState::A;
+                            }
                         }
                         AsmMnemonic::LDX => {
                             if let Some(v) = &accumulator {
